@@ -7,6 +7,7 @@ from __future__ import annotations
 
 import ast
 
+from ..astutil import const_value as const_value
 from ..astutil import (call_name, calls_in, find_func, is_self_attr, parse_stmt, replace_node, enclosing_stmt)
 from ..cfg import CFG
 from ..effects import Effects
@@ -469,17 +470,44 @@ def _r5(ctx, cache):
                          (f.name, norm_text(n), sorted(tables)[0]), text="decode " + norm_text(n)[:60])
     # the offsets are cumulative sizes of the level tables: ranges are disjoint
     init = prog.lookup_method(ci, "__init__")
+
+    def cumulative(fn, is_container):
+        """a loop in fn stores a running counter under each level and advances it by the size of that level's table"""
+        for lp in [x for x in walk_function(fn.node) if isinstance(x, ast.For)]:
+            st_ = [s_ for s_ in lp.body if isinstance(s_, ast.Assign) and isinstance(s_.targets[0], ast.Subscript) and
+                   is_container(s_.targets[0].value) and isinstance(s_.value, ast.Name)]
+            acc_ = [s_ for s_ in lp.body if isinstance(s_, ast.AugAssign) and isinstance(s_.op, ast.Add) and
+                    isinstance(s_.value, ast.Call) and call_name(s_.value) == "len" and isinstance(s_.target, ast.Name)]
+            if st_ and acc_ and acc_[0].target.id == st_[0].value.id and lp.body.index(st_[0]) < lp.body.index(acc_[0]):
+                zero = [s_ for s_ in walk_function(fn.node) if isinstance(s_, ast.Assign) and isinstance(s_.targets[0], ast.Name)
+                        and s_.targets[0].id == acc_[0].target.id and const_value(s_.value) == 0]
+                if zero:
+                    return st_[0]
+        return None
     for t in sorted(tables):
-        acc = [s_ for s_ in walk_function(init.node) if isinstance(s_, ast.AugAssign) and isinstance(s_.op, ast.Add) and
-               isinstance(s_.value, ast.Call) and call_name(s_.value) == "len"]
-        st = [s_ for s_ in walk_function(init.node) if isinstance(s_, ast.Assign) and isinstance(s_.targets[0], ast.Subscript) and
-              is_self_attr(s_.targets[0].value, t) and isinstance(s_.value, ast.Name)]
-        if acc and st and isinstance(acc[0].target, ast.Name) and acc[0].target.id == st[0].value.id and \
-                acc[0]._parent is st[0]._parent and isinstance(st[0]._parent, ast.For):
-            ctx.holds(init, st[0], "self.%s[level] = running sum of the sizes of the preceding level tables: disjoint code ranges" % t)
+        site = cumulative(init, lambda e_: is_self_attr(e_, t))
+        where = init
+        if site is None:
+            # self.<t> = <helper>(...) : the helper builds the table in a local dict and returns it
+            for s_ in walk_function(init.node):
+                if isinstance(s_, ast.Assign) and any(is_self_attr(x, t) for x in s_.targets) and isinstance(s_.value, ast.Call):
+                    for key in prog.resolve_call(init, s_.value):
+                        h_ = prog.functions.get(key)
+                        if h_ is None:
+                            continue
+                        rets = [r_ for r_ in walk_function(h_.node) if isinstance(r_, ast.Return) and isinstance(r_.value, ast.Name)]
+                        if rets:
+                            site = cumulative(h_, lambda e_, nm=rets[0].value.id: isinstance(e_, ast.Name) and e_.id == nm)
+                            where = h_
+        if site is not None:
+            ctx.holds(where, site, "self.%s[level] = running sum of the sizes of the preceding level tables: disjoint code ranges" % t)
         else:
-            ctx.violated(init, st[0] if st else init.node, "the per-level offsets self.%s are not cumulative table sizes; code ranges "
-                         "may overlap" % t, text="offsets " + t)
+            anywhere = [s_ for s_ in walk_function(init.node) if isinstance(s_, ast.Assign) and
+                        any(is_self_attr(x, t) or (isinstance(x, ast.Subscript) and is_self_attr(x.value, t)) for x in s_.targets)]
+            if any(isinstance(x.value, ast.Call) and not prog.resolve_call(init, x.value) for x in anywhere if isinstance(x.value, ast.Call)):
+                raise AnalysisError("index cache: construction of self.%s not understood" % t)
+            ctx.violated(init, anywhere[0] if anywhere else init.node, "the per-level offsets self.%s are not cumulative table sizes; "
+                         "code ranges may overlap" % t, text="offsets " + t)
 
 
 def _r4(ctx, acquire, release):
